@@ -22,8 +22,8 @@ Arguments Z.opp : simpl never.
 Definition inside (d : canv) : Prop :=
   match cur d with None => True | Some (x, y) => 0 <= x < cc d /\ 0 <= y < cr d end.
 
-(* the two explicit deviations of the model: not failures of the widget under consideration *)
-Definition soft (e : err) : Prop := e = EStarved \/ e = ECut.
+(* the explicit deviation of the model: not a failure of the widget under consideration *)
+Definition soft (e : err) : Prop := e = EStarved.
 
 Definition valid_for (s : sizing) (sz : size) : Prop :=
   match sz with
@@ -66,53 +66,46 @@ Ltac dif :=
   | H : context [if ?b then _ else _] |- _ => destruct b eqn:?
   end.
 
-Ltac fin := repeat split; try congruence; try (f_equal; lia); try lia.
+Ltac fin := repeat split; try congruence; try (f_equal; lia); try lia; auto.
 
-Lemma soft_starved : soft EStarved. Proof. left; reflexivity. Qed.
-Lemma soft_cut : soft ECut. Proof. right; reflexivity. Qed.
-#[global] Hint Resolve soft_starved soft_cut : core.
+Lemma soft_starved : soft EStarved. Proof. reflexivity. Qed.
+#[global] Hint Resolve soft_starved : core.
 
 (* ------------------------------------------------------------------ wrappers *)
-Lemma check_cut_spec cv :
-  match check_cut cv with Ok d => d = cv /\ inside cv | Err e => e = ECut end.
-Proof.
-  unfold check_cut, cursor_outside, inside.
-  destruct (cur cv) as [[x y]|]; cbn; [|auto].
-  destruct ((0 <=? x) && (x <? cc cv) && (0 <=? y) && (y <? cr cv)) eqn:E; cbn; [|auto].
-  split; [reflexivity|lia].
-Qed.
-
 (* a raw render that produces the right size gives a wrapped render that meets the contract *)
 Lemma wrap_flow raw c f (P : canv -> Prop) :
   1 <= c ->
   match raw (SFlow c) f with Ok d => cc d = c /\ P d | Err e => soft e end ->
-  match wrap_render raw (SFlow c) f with Ok d => cc d = c /\ P d /\ inside d | Err e => soft e end.
+  match wrap_render raw (SFlow c) f with Ok d => cc d = c /\ P d | Err e => soft e end.
 Proof.
   intros Hc H. unfold wrap_render, degenerate.
   replace (c <=? 0) with false by lia.
   destruct (raw (SFlow c) f) as [d|e]; cbn; [|exact H].
-  destruct H as [Hd HP]. rewrite Hd, Z.eqb_refl. cbn.
-  pose proof (check_cut_spec d) as S. destruct (check_cut d); [|subst; auto].
-  destruct S as [-> S]. auto.
+  destruct H as [Hd HP]. rewrite Hd, Z.eqb_refl. auto.
 Qed.
 
 Lemma wrap_box raw c r f (P : canv -> Prop) :
   1 <= c -> 1 <= r ->
   match raw (SBox c r) f with Ok d => cc d = c /\ cr d = r /\ P d | Err e => soft e end ->
-  match wrap_render raw (SBox c r) f with Ok d => cc d = c /\ cr d = r /\ P d /\ inside d | Err e => soft e end.
+  match wrap_render raw (SBox c r) f with Ok d => cc d = c /\ cr d = r /\ P d | Err e => soft e end.
 Proof.
   intros Hc Hr H. unfold wrap_render, degenerate.
   replace ((c <=? 0) || (r <=? 0)) with false by lia.
   destruct (raw (SBox c r) f) as [d|e]; cbn; [|exact H].
-  destruct H as [Hd [Hr' HP]]. rewrite Hd, Hr', !Z.eqb_refl. cbn.
-  pose proof (check_cut_spec d) as S. destruct (check_cut d); [|subst; auto].
-  destruct S as [-> S]. auto.
+  destruct H as [Hd [Hr' HP]]. rewrite Hd, Hr', !Z.eqb_refl. cbn. auto.
 Qed.
 
 Lemma wrap_rows_valid raw c f : 1 <= c -> wrap_rows raw c f = raw c f.
 Proof. intros; unfold wrap_rows. replace (c <=? 0) with false by lia. reflexivity. Qed.
 
 (* ------------------------------------------------------------------ canvas laws *)
+Lemma drop_outside_inside c r cu :
+  match drop_outside c r cu with Some (x, y) => 0 <= x < c /\ 0 <= y < r | None => True end.
+Proof.
+  unfold drop_outside. destruct cu as [[x y]|]; [|exact I].
+  destruct ((0 <=? x) && (x <? c) && (0 <=? y) && (y <? r)) eqn:E; [lia|exact I].
+Qed.
+
 Lemma pad_lr_nonneg cv l r :
   0 <= l -> 0 <= r ->
   pad_trim_lr cv l r = Ok (mkC (cc cv + l + r) (cr cv) (shift_cur (cur cv) l 0) (rect cv)).
@@ -120,68 +113,88 @@ Proof.
   intros. unfold pad_trim_lr. replace ((l <? 0) || (r <? 0)) with false by lia. reflexivity.
 Qed.
 
+Lemma inside_pad_lr cv l r :
+  0 <= l -> 0 <= r -> inside cv -> inside (mkC (cc cv + l + r) (cr cv) (shift_cur (cur cv) l 0) (rect cv)).
+Proof.
+  unfold inside. cbn. destruct (cur cv) as [[x y]|]; cbn; [lia|auto].
+Qed.
+
 Lemma pad_tb_nonneg cv t b :
   0 <= t -> 0 <= b ->
-  exists d, pad_trim_tb cv t b = Ok d /\ cc d = cc cv /\ cr d = cr cv + t + b /\ rect d = rect cv.
+  exists d, pad_trim_tb cv t b = Ok d /\ cc d = cc cv /\ cr d = cr cv + t + b /\ rect d = rect cv
+            /\ (inside cv -> inside d).
 Proof.
   intros. unfold pad_trim_tb. replace ((t <? 0) || (b <? 0)) with false by lia. cbn.
-  destruct (0 <? t) eqn:?, (0 <? b) eqn:?; eexists; (split; [reflexivity|]); cbn; repeat split; try reflexivity; lia.
+  destruct (0 <? t) eqn:?, (0 <? b) eqn:?; eexists; (split; [reflexivity|]); cbn;
+    (repeat split; try reflexivity; try lia);
+    unfold inside; cbn; destruct (cur cv) as [[x y]|]; cbn; auto; lia.
 Qed.
 
 Lemma trim_keep cv top n :
   0 <= top -> top < cr cv -> 1 <= n ->
-  exists d, trim cv top (Some n) = Ok d /\ cc d = cc cv /\ cr d = Z.min n (cr cv - top) /\ rect d = rect cv.
+  exists d, trim cv top (Some n) = Ok d /\ cc d = cc cv /\ cr d = Z.min n (cr cv - top) /\ rect d = rect cv
+            /\ inside d.
 Proof.
   intros. unfold trim.
   replace (top <? 0) with false by lia. replace (cr cv <=? top) with false by lia.
   replace (n =? 0) with false by lia. replace (n <? 0) with false by lia.
-  eexists; split; [reflexivity|]; cbn; auto.
+  eexists; split; [reflexivity|]; cbn. repeat split; auto.
+  unfold inside; cbn.
+  pose proof (drop_outside_inside (cc cv) (Z.min n (cr cv - top)) (shift_cur (cur cv) 0 (- top))) as D.
+  destruct (drop_outside (cc cv) (Z.min n (cr cv - top)) (shift_cur (cur cv) 0 (- top))) as [[x y]|]; auto.
 Qed.
 
 (* Pile box: pad or trim the stacked canvas to the requested height *)
 Lemma pad_tb_to cv r :
-  1 <= r -> 0 <= cr cv -> cr cv <> r ->
-  exists d, pad_trim_tb cv 0 (r - cr cv) = Ok d /\ cc d = cc cv /\ cr d = r /\ rect d = rect cv.
+  1 <= r -> 0 <= cr cv -> cr cv <> r -> inside cv ->
+  exists d, pad_trim_tb cv 0 (r - cr cv) = Ok d /\ cc d = cc cv /\ cr d = r /\ rect d = rect cv /\ inside d.
 Proof.
-  intros Hr H0 Hne. destruct (Z_lt_ge_dec (cr cv) r) as [Hlt|Hge].
-  - destruct (pad_tb_nonneg cv 0 (r - cr cv)) as [d [E [A [B C]]]]; try lia.
+  intros Hr H0 Hne Hin. destruct (Z_lt_ge_dec (cr cv) r) as [Hlt|Hge].
+  - destruct (pad_tb_nonneg cv 0 (r - cr cv)) as [d [E [A [B [C D]]]]]; try lia.
     exists d; repeat split; auto; lia.
   - unfold pad_trim_tb. replace ((0 <? 0) || (r - cr cv <? 0)) with true by lia.
     replace (Z.max 0 (- 0)) with 0 by lia.
     replace (cr cv - 0 - Z.max 0 (- (r - cr cv))) with r by lia.
-    destruct (trim_keep cv 0 r) as [d [E [A [B C]]]]; try lia.
+    destruct (trim_keep cv 0 r) as [d [E [A [B [C D]]]]]; try lia.
     rewrite E. cbn. replace (0 <? 0) with false by lia. replace (0 <? r - cr cv) with false by lia.
     exists d; repeat split; auto; lia.
 Qed.
 
 (* CanvasCombine *)
-Definition all_width (w : Z) (l : list canv) : Prop := Forall (fun c => cc c = w /\ rect c = true) l.
+Definition all_width (w : Z) (l : list canv) : Prop :=
+  Forall (fun c => cc c = w /\ rect c = true /\ 0 <= cr c /\ inside c) l.
 
 Lemma combine_from_spec w0 : forall l row acc,
-  all_width w0 l -> cc acc = w0 -> rect acc = true ->
+  all_width w0 l -> cc acc = w0 -> rect acc = true -> row = cr acc -> 0 <= cr acc -> inside acc ->
   let d := combine_from w0 row l acc in
-  cc d = w0 /\ cr d = cr acc + fold_right (fun c a => cr c + a) 0 l /\ rect d = true.
+  cc d = w0 /\ cr d = cr acc + fold_right (fun c a => cr c + a) 0 l /\ rect d = true /\ inside d.
 Proof.
-  induction l as [|c l IH]; intros row acc Hall Hc Hr; cbn.
+  induction l as [|c l IH]; intros row acc Hall Hc Hr Hrow H0 Hin; cbn.
   - repeat split; auto; lia.
-  - inversion Hall as [|? ? [Hcw Hcr] Hall']; subst.
-    specialize (IH (row + cr c)
-      (mkC (cc acc) (cr acc + cr c) (later_cur (cur acc) (shift_cur (cur c) 0 row))
+  - inversion Hall as [|? ? [Hcw [Hcr [Hc0 Hci]]] Hall']; subst.
+    specialize (IH (cr acc + cr c)
+      (mkC (cc acc) (cr acc + cr c) (later_cur (cur acc) (shift_cur (cur c) 0 (cr acc)))
            (rect acc && rect c && (cc c =? cc acc))) Hall').
     cbn in IH.
-    destruct IH as [A [B C]]; auto.
+    destruct IH as [A [B [C D]]]; auto.
     { rewrite Hr, Hcr, Hcw, Z.eqb_refl. reflexivity. }
+    { lia. }
+    { unfold inside in *. cbn. destruct (cur c) as [[x y]|]; cbn.
+      - lia.
+      - destruct (cur acc) as [[x y]|]; auto. lia. }
     repeat split; auto. lia.
 Qed.
 
 Lemma combine_spec w l :
   l <> [] -> all_width w l ->
-  cc (canvas_combine l) = w /\ cr (canvas_combine l) = fold_right (fun c a => cr c + a) 0 l /\ rect (canvas_combine l) = true.
+  cc (canvas_combine l) = w /\ cr (canvas_combine l) = fold_right (fun c a => cr c + a) 0 l
+  /\ rect (canvas_combine l) = true /\ inside (canvas_combine l).
 Proof.
   intros Hne Hall. destruct l as [|c l]; [congruence|]. unfold canvas_combine.
-  inversion Hall as [|? ? [Hcw Hcr] Hall']; subst.
-  pose proof (combine_from_spec (cc c) (c :: l) 0 (mkC (cc c) 0 None true) Hall eq_refl eq_refl) as S.
-  cbn in S. cbn. destruct S as [A [B C]]. repeat split; auto.
+  inversion Hall as [|? ? [Hcw [Hcr [Hc0 Hci]]] Hall']; subst.
+  pose proof (combine_from_spec (cc c) (c :: l) 0 (mkC (cc c) 0 None true) Hall eq_refl eq_refl eq_refl
+                ltac:(cbn; lia) I) as S.
+  cbn in S. cbn. destruct S as [A [B [C D]]]. repeat split; auto.
 Qed.
 
 (* ------------------------------------------------------------------ nodes built with mk_node *)
@@ -189,11 +202,11 @@ Lemma mk_node_good sz rows pf render :
   (forall c f, s_flow sz = true -> 1 <= c -> match rows c f with Ok h => 1 <= h | Err e => soft e end) ->
   (forall c f, s_flow sz = true -> 1 <= c ->
      match render (SFlow c) f with
-     | Ok d => cc d = c /\ (rows c f = Ok (cr d) /\ rect d = true)
+     | Ok d => cc d = c /\ (rows c f = Ok (cr d) /\ rect d = true /\ inside d)
      | Err e => soft e end) ->
   (forall c r f, s_box sz = true -> 1 <= c -> 1 <= r ->
      match render (SBox c r) f with
-     | Ok d => cc d = c /\ cr d = r /\ rect d = true
+     | Ok d => cc d = c /\ cr d = r /\ (rect d = true /\ inside d)
      | Err e => soft e end) ->
   Good (mk_node sz rows pf render).
 Proof.
@@ -203,11 +216,11 @@ Proof.
     replace (c <=? 0) with false by lia. unfold default_pack. rewrite Hs.
     rewrite wrap_rows_valid by lia. destruct (rows c f); cbn; eauto.
   - intros c f Hs Hc.
-    pose proof (wrap_flow render c f (fun d => rows c f = Ok (cr d) /\ rect d = true) Hc (Hflow c f Hs Hc)) as W.
+    pose proof (wrap_flow render c f (fun d => rows c f = Ok (cr d) /\ rect d = true /\ inside d) Hc (Hflow c f Hs Hc)) as W.
     destruct (wrap_render render (SFlow c) f); [|exact W].
-    destruct W as [A [[B C] D]]. unfold meets. cbn [m_rows mk_node]. rewrite wrap_rows_valid by lia. auto.
+    destruct W as [A [B [C D]]]. unfold meets. cbn [m_rows mk_node]. rewrite wrap_rows_valid by lia. auto.
   - intros c r f Hs Hc Hr.
-    pose proof (wrap_box render c r f (fun d => rect d = true) Hc Hr (Hbox c r f Hs Hc Hr)) as W.
+    pose proof (wrap_box render c r f (fun d => rect d = true /\ inside d) Hc Hr (Hbox c r f Hs Hc Hr)) as W.
     destruct (wrap_render render (SBox c r) f); [|exact W].
     destruct W as [A [B [C D]]]. unfold meets. auto.
   - intros c f Hc. unfold wrap_rows. replace (c <=? 0) with true by lia. reflexivity.
@@ -222,17 +235,17 @@ Proof.
   - apply (g_rows s G).
   - apply (g_pack s G).
   - intros c f Hs Hc. pose proof (g_flow s G c f Hs Hc) as H.
-    pose proof (wrap_flow (m_render s) c f (fun d => m_rows s c f = Ok (cr d) /\ rect d = true) Hc) as W.
+    pose proof (wrap_flow (m_render s) c f (fun d => m_rows s c f = Ok (cr d) /\ rect d = true /\ inside d) Hc) as W.
     destruct (m_render s (SFlow c) f) as [d|e] eqn:E.
-    + destruct H as [[A B] [C D]]. specialize (W (conj A (conj B C))).
+    + destruct H as [[A B] [C D]]. specialize (W (conj A (conj B (conj C D)))).
       destruct (wrap_render (m_render s) (SFlow c) f); [|exact W].
-      destruct W as [A' [[B' C'] D']]. unfold meets; cbn [m_rows attr_sem]. auto.
+      destruct W as [A' [B' [C' D']]]. unfold meets; cbn [m_rows attr_sem]. auto.
     + specialize (W H). destruct (wrap_render (m_render s) (SFlow c) f); [|exact W].
-      destruct W as [A' [[B' C'] D']]. unfold meets; cbn [m_rows attr_sem]. auto.
+      destruct W as [A' [B' [C' D']]]. unfold meets; cbn [m_rows attr_sem]. auto.
   - intros c r f Hs Hc Hr. pose proof (g_box s G c r f Hs Hc Hr) as H.
-    pose proof (wrap_box (m_render s) c r f (fun d => rect d = true) Hc Hr) as W.
+    pose proof (wrap_box (m_render s) c r f (fun d => rect d = true /\ inside d) Hc Hr) as W.
     destruct (m_render s (SBox c r) f) as [d|e] eqn:E.
-    + destruct H as [[A B] [C D]]. specialize (W (conj A (conj B C))).
+    + destruct H as [[A B] [C D]]. specialize (W (conj A (conj B (conj C D)))).
       destruct (wrap_render (m_render s) (SBox c r) f); [|exact W].
       destruct W as [A' [B' [C' D']]]. unfold meets. auto.
     + specialize (W H). destruct (wrap_render (m_render s) (SBox c r) f); [|exact W].
@@ -322,7 +335,7 @@ Proof.
       destruct B as [[B1 B2] [B3 B4]].
       replace ((negb (n + t + b =? 0)) && (n + t + b <? cr d)) with false by lia. cbn.
       replace (n + t + b <? cr d) with false by lia.
-      destruct (pad_tb_nonneg d t b Ht Hb) as [d' [E [A1 [A2 A3]]]]. rewrite E.
+      destruct (pad_tb_nonneg d t b Ht Hb) as [d' [E [A1 [A2 [A3 A4]]]]]. rewrite E.
       fin.
     + (* pack: flow child *)
       pose proof (g_rows s G c f Hok Hc) as R.
@@ -333,7 +346,7 @@ Proof.
       destruct F as [[F1 F2] [F3 F4]]. assert (cr d = h) by congruence.
       replace ((negb (h + t + b =? 0)) && (h + t + b <? cr d)) with false by lia. cbn.
       replace (h + t + b <? cr d) with false by lia.
-      destruct (pad_tb_nonneg d t b Ht Hb) as [d' [E [A1 [A2 A3]]]]. rewrite E.
+      destruct (pad_tb_nonneg d t b Ht Hb) as [d' [E [A1 [A2 [A3 A4]]]]]. rewrite E.
       fin.
   - (* box *)
     intros c r f Hs Hc Hr. unfold filler_render, default_pack. cbn.
@@ -349,7 +362,7 @@ Proof.
         destruct B as [[B1 B2] [B3 B4]].
         replace ((negb (r =? 0)) && (r <? cr d)) with false by lia. cbn.
         replace (r <? cr d) with false by lia.
-        destruct (pad_tb_nonneg d t' b' N1 N2) as [d' [E [A1 [A2 A3]]]]. rewrite E.
+        destruct (pad_tb_nonneg d t' b' N1 N2) as [d' [E [A1 [A2 [A3 A4]]]]]. rewrite E.
         fin.
     + (* pack *)
       assert (Hfl : s_flow (m_sizing s) = true) by exact Hok.
@@ -366,22 +379,22 @@ Proof.
         unfold inside in F4. destruct (cur d) as [[cx cy]|].
         -- destruct (r <=? cy) eqn:Ecy.
            ++ replace (r - 0 - 0) with r by lia.
-              destruct (trim_keep d (cy - r + 1) r) as [d1 [E1 [A1 [A2 A3]]]]; try lia.
+              destruct (trim_keep d (cy - r + 1) r) as [d1 [E1 [A1 [A2 [A3 A4]]]]]; try lia.
               rewrite E1. cbn. replace (r <? cr d1) with false by lia.
-              destruct (pad_tb_nonneg d1 0 0) as [d2 [E2 [C1 [C2 C3]]]]; try lia. rewrite E2.
+              destruct (pad_tb_nonneg d1 0 0) as [d2 [E2 [C1 [C2 [C3 C4]]]]]; try lia. rewrite E2.
               fin.
            ++ cbn. replace (r <? cr d) with true by lia.
-              destruct (trim_keep d 0 r) as [d1 [E1 [A1 [A2 A3]]]]; try lia. rewrite E1.
+              destruct (trim_keep d 0 r) as [d1 [E1 [A1 [A2 [A3 A4]]]]]; try lia. rewrite E1.
               fin.
         -- cbn. replace (r <? cr d) with true by lia.
-           destruct (trim_keep d 0 r) as [d1 [E1 [A1 [A2 A3]]]]; try lia. rewrite E1.
+           destruct (trim_keep d 0 r) as [d1 [E1 [A1 [A2 [A3 A4]]]]]; try lia. rewrite E1.
            fin.
       * pose proof (ctbf_given_fit r va h None t b ltac:(lia)) as S.
         pose proof (ctbf_nonneg r va (HGiven h) h None t b) as [N1 N2].
         destruct (ctbf r va (HGiven h) h None t b) as [t' b'] eqn:Ec. cbn in S, N1, N2. cbn.
         replace ((negb (r =? 0)) && (r <? cr d)) with false by lia. cbn.
         replace (r <? cr d) with false by lia.
-        destruct (pad_tb_nonneg d t' b' N1 N2) as [d' [E [A1 [A2 A3]]]]. rewrite E.
+        destruct (pad_tb_nonneg d t' b' N1 N2) as [d' [E [A1 [A2 [A3 A4]]]]]. rewrite E.
         fin.
     + (* relative *)
       pose proof (ctbf_nonneg r va (HRelative pct) 0 mh t b) as [N1 N2].
@@ -394,7 +407,7 @@ Proof.
         destruct B as [[B1 B2] [B3 B4]].
         replace ((negb (r =? 0)) && (r <? cr d)) with false by lia. cbn.
         replace (r <? cr d) with false by lia.
-        destruct (pad_tb_nonneg d t' b' N1 N2) as [d' [E [A1 [A2 A3]]]]. rewrite E.
+        destruct (pad_tb_nonneg d t' b' N1 N2) as [d' [E [A1 [A2 [A3 A4]]]]]. rewrite E.
         fin.
 Qed.
 
@@ -535,7 +548,7 @@ Proof.
                   | _ => m_rows s (c - L - R) f end) = Ok (cr d)).
     { unfold pad_child_rows in Q. destruct wt; try congruence; exact Q. }
     destruct ((negb (L =? 0)) || (negb (R =? 0))) eqn:ELR.
-    + rewrite pad_lr_nonneg by lia. cbn. fin.
+    + rewrite pad_lr_nonneg by lia. pose proof (inside_pad_lr d L R V1 V2 F4) as IP. cbn in IP |- *. fin.
     + fin.
   - (* box *)
     intros c rr f Hs Hc Hrr. apply padding_sizing_box in Hs; auto.
@@ -558,7 +571,7 @@ Proof.
     destruct F as [[F1 F2] [F3 F4]].
     replace (cc d =? 0) with false by lia.
     destruct ((negb (L =? 0)) || (negb (R =? 0))) eqn:ELR.
-    + rewrite pad_lr_nonneg by lia. cbn. fin.
+    + rewrite pad_lr_nonneg by lia. pose proof (inside_pad_lr d L R V1 V2 F4) as IP. cbn in IP |- *. fin.
     + fin.
 Qed.
 
@@ -655,7 +668,7 @@ Proof.
     cbn [flow_sizes pile_render_items].
     assert (H1 : 1 <= h /\
                  match m_render (pi_sem it) (flow_entry_size c it) (item_focus f fp i) with
-                 | Ok d => cc d = c /\ cr d = h /\ rect d = true
+                 | Ok d => cc d = c /\ cr d = h /\ rect d = true /\ inside d
                  | Err e => soft e end).
     { unfold flow_entry_size. destruct (pi_kind it) eqn:K.
       - inversion Eh; subst h. assert (1 <= pi_amount it) by lia. split; [lia|].
@@ -679,9 +692,9 @@ Proof.
     destruct H1 as [Hh Hr]. replace (0 <? h) with true by lia.
     destruct (m_render (pi_sem it) (flow_entry_size c it) (item_focus f fp i)) as [d|e]; cbn; [|exact Hr].
     destruct (pile_render_items l (flow_sizes c l hr) f fp (i + 1)) as [cvs|e]; cbn; [|exact IH].
-    destruct IH as [A [B C]]. destruct Hr as [R1 [R2 R3]].
+    destruct IH as [A [B C]]. destruct Hr as [R1 [R2 [R3 R4]]].
     repeat split.
-    + constructor; auto.
+    + constructor; auto. repeat split; auto. lia.
     + lia.
     + lia.
 Qed.
@@ -708,6 +721,7 @@ Proof.
       destruct (pile_box_pass1 l c f fp (i + 1) (rem - pi_amount it) wt) as [[[hs r'] w']|e]; cbn; [|exact IH].
       destruct IH as [A B]. split; [lia|]. intros X. inversion X; subst; [congruence|auto].
     + assert (Hfl : s_flow (m_sizing (pi_sem it)) = true) by exact O.
+      rewrite Hfl. cbn [negb andb].
       pose proof (g_rows _ G c (item_focus f fp i) Hfl Hc) as R.
       destruct (m_rows (pi_sem it) c (item_focus f fp i)) as [rows|e]; cbn; [|exact R].
       specialize (IH (i + 1) (rem - rows) wt HG' HO' Hwt).
@@ -788,7 +802,7 @@ Proof.
     specialize (IH es' (i + 1) HG' HE').
     destruct (0 <? h) eqn:Hh; [|exact IH].
     assert (R : match m_render (pi_sem it) sz (item_focus f fp i) with
-                | Ok d => cc d = c /\ rect d = true /\ 0 <= cr d
+                | Ok d => cc d = c /\ rect d = true /\ 0 <= cr d /\ inside d
                 | Err e => soft e end).
     { destruct E1 as [[E1 E2]|[E1 E2]]; cbn in E1; subst sz.
       - pose proof (g_flow _ G c (item_focus f fp i) E2 Hc) as F.
@@ -800,7 +814,7 @@ Proof.
         destruct B as [[B1 B2] [B3 B4]]. repeat split; auto. lia. }
     destruct (m_render (pi_sem it) sz (item_focus f fp i)) as [d|e]; cbn; [|exact R].
     destruct (pile_render_items l es' f fp (i + 1)) as [cvs|e]; cbn; [|exact IH].
-    destruct IH as [A B]. destruct R as [R1 [R2 R3]]. split; constructor; auto.
+    destruct IH as [A B]. destruct R as [R1 [R2 [R3 R4]]]. split; constructor; auto.
 Qed.
 
 Lemma sum_cr_nonneg cvs : Forall (fun d => 0 <= cr d) cvs -> 0 <= fold_right (fun d a => cr d + a) 0 cvs.
@@ -830,7 +844,7 @@ Proof.
     destruct (pile_render_items l (flow_sizes c l hs) f fp 0) as [cvs|e]; cbn; [|exact R].
     destruct R as [R1 [R2 R3]].
     destruct cvs as [|d cvs]; [destruct l; [congruence|discriminate]|].
-    destruct (combine_spec c (d :: cvs) ltac:(discriminate) R1) as [A [B C]].
+    destruct (combine_spec c (d :: cvs) ltac:(discriminate) R1) as [A [B [C D]]].
     rewrite sumz_fold. fin.
   - (* box *)
     intros c r f Hs Hc Hr. unfold pile_render, pile_sizes.
@@ -839,12 +853,12 @@ Proof.
     pose proof (pile_box_render c f fp Hc l es 0 HG S) as R.
     destruct (pile_render_items l es f fp 0) as [cvs|e]; cbn; [|exact R].
     destruct R as [R1 R2].
-    destruct cvs as [|d cvs]; [cbn; auto|].
-    destruct (combine_spec c (d :: cvs) ltac:(discriminate) R1) as [A [B C]].
+    destruct cvs as [|d cvs]; [cbn; repeat split; auto; exact I|].
+    destruct (combine_spec c (d :: cvs) ltac:(discriminate) R1) as [A [B [C D]]].
     pose proof (sum_cr_nonneg _ R2) as N.
     destruct (r =? cr (canvas_combine (d :: cvs))) eqn:Er.
     + fin.
-    + destruct (pad_tb_to (canvas_combine (d :: cvs)) r Hr ltac:(lia) ltac:(lia)) as [d' [E' [A' [B' C']]]].
+    + destruct (pad_tb_to (canvas_combine (d :: cvs)) r Hr ltac:(lia) ltac:(lia) D) as [d' [E' [A' [B' [C' D']]]]].
       rewrite E'. fin.
 Qed.
 
